@@ -57,6 +57,7 @@ def c14a(ck, prog):
     if len(bites) != 1:
         raise AnchorLost("CORSProc::bite not found")
     f = prog.coroutine_body(bites[0].key)
+    f = prog.inlined(f, 2, r"SetHeaders::<'set>::(AccessControl\w+|Vary)$")     # header setting may be split into helpers of CORS
     inner = f.calls_to(r"^ohkami::fang::FangProc::bite$")
     ipoll = [p for p in f.calls() if re.search(r"Future::poll$", p.decl or "") and inner and paths.root_call(f, p.args[0]) is not None and paths.root_call(f, p.args[0]).bb == inner[0].bb]
     rets = f.exits()
@@ -101,7 +102,7 @@ def c14a(ck, prog):
     OPT = r"^isOPTIONS\("
     expect("AccessControlMaxAge", [OPT, r"cors\.MaxAge is Some$"], r"MaxAge", "only for OPTIONS requests, when MaxAge is configured")
     expect("AccessControlAllowMethods", [OPT, r"cors\.AllowMethods is Some$"], r"AllowMethods", "only for OPTIONS requests, when AllowMethods is configured")
-    ah = expect("AccessControlAllowHeaders", [OPT, r"or_else\(.* is Some$"], r"or_else", "only for OPTIONS requests: configured AllowHeaders, else the echoed Access-Control-Request-Headers")
+    ah = expect("AccessControlAllowHeaders", [OPT, r" is Some$"], r".", "only for OPTIONS requests: configured AllowHeaders, else the echoed Access-Control-Request-Headers")
     if len(ah) == 1:
         oe = [c for c in f.calls() if c.name == "or_else" and "AllowHeaders" in decision.describe_deep(f, c.args[0], 4)]
         okf = False
@@ -109,6 +110,23 @@ def c14a(ck, prog):
             clos = f.origin(oe[0].args[1])
             cf = prog.fns.get(clos[-1][1][1].get("def")) if clos and clos[-1][0] == "agg" else None
             okf = cf is not None and bool([c for c in cf.calls() if c.name == "AccessControlRequestHeaders"])
+        else:
+            # the same choice written as a match: the value set is, on every path, the configured list, and otherwise the
+            # request's Access-Control-Request-Headers (read only where the configured list is absent)
+            lv = paths.leaf_values(f, ah[0].args[1]) if False else None
+            src = paths.root_call(f, ah[0].args[1])      # to_string(x): follow x
+            xop = src.args[0] if src is not None and src.args else ah[0].args[1]
+            leaves = paths.leaf_values(f, xop)
+            kinds = set()
+            for l in leaves:
+                if l[0] == "call" and l[1].name == "AccessControlRequestHeaders":
+                    unconfigured = paths.has_fact(f, prog, l[1].bb, lambda fa: fa.kind == "variant" and fa.allowed == {"None"} and "AllowHeaders" in (guards.describe_origin(f, fa.steps) + (decision.describe_deep(f, fa.steps[-1][1].args[0], 4) if fa.steps and fa.steps[-1][0] == "call" and fa.steps[-1][1].args else "")))
+                    kinds.add("echo" if unconfigured is not None else "echo-even-if-configured")
+                elif l[0] in ("call", "place") and "AllowHeaders" in (decision.describe_deep(f, l[1].args[0], 4) if l[0] == "call" and l[1].args else decision.describe_deep(f, ["c", [l[1], l[2]]], 4)):
+                    kinds.add("configured")
+                else:
+                    kinds.add("other")
+            okf = kinds == {"configured", "echo"}
         ck.ob(R, "AllowHeaders:echo-fallback", okf, f.loc(ah[0].sp), "" if okf else "the fallback of Access-Control-Allow-Headers is not the request's Access-Control-Request-Headers", how="cors.AllowHeaders.as_deref().or_else(|| req.headers.AccessControlRequestHeaders())")
     # 501 -> 200 only for OPTIONS && status == NotImplemented
     st = [(bi, s_, agg) for bi, s_, agg in decision.field_stores(f, "status")]
@@ -236,6 +254,8 @@ def c14c(ck, prog):
     for f in prog.methods(r"^ohkami::fang::builtin::cors::CORS$", r".*"):
         if f.name in ("new",) or f.argc < 2:
             continue
+        if not re.search(r"cors::CORS$", f.locals[0] or "") or not re.search(r"cors::CORS$", f.locals[1] or ""):
+            continue     # not a builder method (`fn X(mut self, value) -> Self`): e.g. a helper applying the policy to a response
         stores = [(bi, st) for bi in sorted(f.live_blocks()) for st in f.blocks[bi]["st"]
                   if st["k"] == "=" and st["p"][0] == 1 and st["p"][1] and st["p"][1][-1][0] == "f"]
         mine = [(bi, st) for bi, st in stores if st["p"][1][-1][2] == f.name]
